@@ -152,6 +152,7 @@ def flows_into(fn, start_id, sink_test, table=None, subject=None):
         ops = list(i.ops) + ([inc["v"] for inc in i["incoming"]] if i.op == "phi" else [])
         for o in ops:
             if o["k"] == "inst": users.setdefault(o["v"], []).append(i)
+            elif o["k"] == "arg": users.setdefault(("arg", o["v"]), []).append(i)
     while work:
         v, added = work.pop()
         if (v, added) in seen: continue
@@ -159,6 +160,14 @@ def flows_into(fn, start_id, sink_test, table=None, subject=None):
         for i in users.get(v, ()):
             if sink_test(i, v): reached = True; continue
             if i.id < 0: continue
+            if i.op == "call" and i.get("callee") and not i["callee"].startswith("llvm.") and fn.mod.fn(i["callee"]) is not None and not fn.mod.fn(i["callee"]).decl:
+                # a length handed to a helper that adds it into what it returns (e.g. headerLen(minWidth, countWidth))
+                g = fn.mod.fn(i["callee"])
+                for k in range(i["nargs"]):
+                    o = i.ops[k]
+                    if (o["k"] == "inst" and o["v"] == v) or (o["k"] == "arg" and ("arg", o["v"]) == v):
+                        if param_reaches_return(g, k): work.append((i.id, True))
+                continue
             if i.op in ("zext", "sext", "trunc"): work.append((i.id, added))
             elif i.op in ("add", "sub", "mul", "shl"): work.append((i.id, True))      # summed, or charged once per element
             elif i.op in ("phi", "select"):
@@ -172,6 +181,15 @@ def flows_into(fn, start_id, sink_test, table=None, subject=None):
                         alts.add(K if rng is not None else ("ungoverned", K))
                 work.append((i.id, added))
     return reached, tuple(sorted(alts, key=repr))
+
+
+_PRR = {}
+def param_reaches_return(g, k):
+    key = (g.name, k)
+    if key not in _PRR:
+        _PRR[key] = False
+        _PRR[key] = flows_into(g, ("arg", k), lambda u, v: u.op == "ret")[0]
+    return _PRR[key]
 
 
 def size_terms(fn, mod, kind, depth=0):
